@@ -83,6 +83,18 @@ CHECKS["C19"] = {
     "assumptions": ["one clock for all parties", _SAMPLING],
 }
 
+CHECKS["C06"] = {
+    "level": "exploration",
+    "technique": _TECH + ": scripted resumption requesters and a byte-for-byte replayer against the real server side across generated session lifetimes in virtual time; reference key/identity/expiry model and reference codec on the wire",
+    "level_text": "Seeded exploration of histories: sessions with and without a key, authenticated or not, are established by real handshakes; the history sleeps across the lease (200 s) and duration (600 s) boundaries in virtual time, invalidates sessions and sweeps expired ones; at each point drawn requests from the catalogue (right id with the right key / a wrong key / no key, unknown id, ids differing by one character, with and without a reply requested, from the original or another address) are made by a scripted requester against the real ServerHandshake, which then sends a canary and reads one application message. Oracle: unknown, definitely expired, invalidated and keyless sessions are never resumed and a requester that asked is told SID_NOT_FOUND; after an accepted resumption the server's bytes open only under the session key (reference codec; canary never in clear), a requester without the right key gets no application byte accepted and cannot read the reply; with the right key data flows and the server reports the identity, authentication status and key of the original handshake. An enumerated scenario replays either direction of a recorded legitimate resumed connection (whole or cut at each frame) by a party without the key.",
+    "level_note": "Expiry is judged with sound windows (definitely dead after max(create+duration, lastUse+lease); definitely alive before the min). All sessions live in cedar's process-global server cache.",
+    "budget": {"quick": 25, "thorough": 900},
+    "rule": "a case is one generated session history with 3 catalogue requests per probe point (or one replay); distinct = distinct event-log hash; non-trivial = scheduler had a choice or a replay fault fired.",
+    "real": _REAL_SEC,
+    "stub": _SIM + ["scripted resumption requester / replayer (framing via cedar message+stream, keys via SetSymmetricKey)", "reference AES-GCM codec on the server's bytes"],
+    "assumptions": ["one clock for all parties", _SAMPLING],
+}
+
 CHECKS["C07"] = {
     "level": "exploration",
     "technique": _TECH + ": generated histories of real client handshakes over (tag, address, command) with server restarts, connection resets, virtual-time expiry and invalidation; reference reuse map",
